@@ -233,7 +233,9 @@ class Models:
                     I.store(st, addr, new)
         val = self.result_value(I, np, site, rargs, dt)
         ev['res'] = val
-        if is_agg(val):
+        if c and c.get('opaque_key'):
+            pass    # a pure local function of the same arguments yields the same value: keep what is known about it
+        elif is_agg(val):
             for f in agg_fields(val):
                 I.kill_facts_about(st, f)
         else:
